@@ -34,6 +34,10 @@ void upump_sim_mgr_set_faults(struct upump_mgr *mgr, uint32_t spurious_per1024,
  * threads have read (another reader can then have drained it legally); a
  * descriptor with a single reader never shows readable for nothing */
 void upump_sim_mgr_set_spurious_shared_only(struct upump_mgr *mgr, bool on);
+/** when nothing is ready the loop moves the clock to the next timer, unless that
+ * timer is further away than the horizon (0 = no horizon): a resume timer armed
+ * for thousands of years must count as "never", not be jumped to */
+void upump_sim_mgr_set_horizon(struct upump_mgr *mgr, uint64_t ticks);
 /** ready watchers run in allocation order instead of a seeded order (used when
  * two executions of one history have to be compared with each other) */
 void upump_sim_mgr_set_fifo(struct upump_mgr *mgr, bool on);
